@@ -319,8 +319,15 @@ static int run_ids(long from, long to, const char * listfile) {
 struct C10Base {
     twin::Bytes file; twin::Bytes stream; std::vector<size_t> cpos; std::vector<size_t> cend;   // container start / end (incl. pad) offsets in file
     std::vector<size_t> opos;                                                                     // object start offsets in stream (by header walk)
-    long n_fbyte, n_f16, n_f32, n_ftrunc, n_fblock, n_sbyte, n_s16, n_s32, n_strunc, n_sblock, n_osize, n_cfield;
-    long total() const { return n_fbyte + n_f16 + n_f32 + n_ftrunc + n_fblock + n_sbyte + n_s16 + n_s32 + n_strunc + n_sblock + n_osize + n_cfield; }
+    long n_fbyte, n_f16, n_f32, n_ftrunc, n_fblock, n_sbyte, n_s16, n_s32, n_strunc, n_sblock, n_osize, n_cfield, n_combo;
+    long total() const { return n_fbyte + n_f16 + n_f32 + n_ftrunc + n_fblock + n_sbyte + n_s16 + n_s32 + n_strunc + n_sblock + n_osize + n_cfield + n_combo; }
+    // segments in the order c10_mutant() consumes them; bulk segments are strided in the quick tier, targeted ones always run completely
+    void segs(long * n) const { long v[13] = {n_fbyte, n_f16, n_f32, n_ftrunc, n_fblock, n_sbyte, n_s16, n_s32, n_strunc, n_sblock, n_osize, n_combo, n_cfield}; for (int i = 0; i < 13; i++) n[i] = v[i]; }
+    static bool bulk(int seg) { return seg <= 3 || (seg >= 5 && seg <= 8); }
+    long bulk_total() const { long n[13]; segs(n); long t = 0; for (int i = 0; i < 13; i++) if (bulk(i)) t += n[i]; return t; }
+    long targeted_total() const { return total() - bulk_total(); }
+    // index within the bulk (or targeted) sub-space -> unified index for c10_mutant
+    long unify(long k, bool want_bulk) const { long n[13]; segs(n); long base = 0; for (int i = 0; i < 13; i++) { if (bulk(i) == want_bulk) { if (k < n[i]) return base + k; k -= n[i]; } base += n[i]; } return total() - 1; }
 };
 static const uint8_t BV8[] = {0x00, 0x01, 0x7f, 0x80, 0xff};
 static const uint64_t BVW[] = {0, 1, 0x7fffffffffffffffULL, 0x8000000000000000ULL, 0xffffffffffffffffULL};
@@ -342,7 +349,8 @@ static void c10_prepare(C10Base & b) {
     b.n_fbyte = 5 * (long)n; b.n_f16 = 7 * (long)(n / 2); b.n_f32 = 7 * (long)(n / 4); b.n_ftrunc = (long)n + 1; b.n_fblock = 3 * (long)b.cpos.size();
     b.n_sbyte = 2 * 5 * (long)m; b.n_s16 = 7 * (long)(m / 2); b.n_s32 = 2 * 7 * (long)(m / 4); b.n_strunc = 2 * ((long)m + 1); b.n_sblock = 3 * (long)b.opos.size();
     b.n_osize = 21 * (long)b.opos.size() * 2; b.n_cfield = 2 * 16 * (long)std::max<size_t>(1, b.cpos.size() ? 1 : 0);
-    if (m == 0) b.n_sbyte = b.n_s16 = b.n_s32 = b.n_strunc = b.n_sblock = b.n_osize = b.n_cfield = 0;
+    b.n_combo = 2 * 6 * 8 * 3 * (long)b.opos.size();
+    if (m == 0) b.n_sbyte = b.n_s16 = b.n_s32 = b.n_strunc = b.n_sblock = b.n_osize = b.n_cfield = b.n_combo = 0;
 }
 
 static void put_le(twin::Bytes & v, size_t off, uint64_t val, int w) { for (int i = 0; i < w && off + i < v.size(); i++) v[off + i] = (uint8_t)(val >> (8 * i)); }
@@ -391,6 +399,14 @@ static twin::Bytes c10_mutant(const C10Base & b, long j, std::string & kind) {
         uint32_t old = twin::get32(&s[b.opos[i] + 8]); uint32_t v = k < 17 ? (uint32_t)k : k == 17 ? old - 1 : k == 18 ? old + 1 : k == 19 ? 0x7fffffffu : 0xffffffffu;
         put_le(s, b.opos[i] + 8, v, 4); return rewrap(b, s, level);
     } j -= b.n_osize;
+    if (j < b.n_combo) {
+        // several header fields of one object corrupted together: headerSize x objectSize x headerVersion
+        kind = "stream-header-combo"; int level = (j % 2) ? 6 : 0; j /= 2; size_t i = (size_t)(j / (6 * 8 * 3)); long k = j % (6 * 8 * 3);
+        static const uint16_t hs[] = {0, 1, 15, 16, 17, 0xffff}; uint32_t old = twin::get32(&s[b.opos[i] + 8]);
+        const uint32_t os[] = {0, 1, 15, 16, 17, old - 1, old + 4, 0xffffffffu}; static const uint16_t hv[] = {0, 2, 0xffff};
+        put_le(s, b.opos[i] + 4, hs[k % 6], 2); put_le(s, b.opos[i] + 8, os[(k / 6) % 8], 4); if ((k / 48) % 3) put_le(s, b.opos[i] + 6, hv[(k / 48) % 3], 2);
+        return rewrap(b, s, level);
+    } j -= b.n_combo;
     {   // inconsistent container fields on the first container, method 0 and 2 wrapping
         kind = "container-field"; int level = (j % 2) ? 6 : 0; j /= 2;
         twin::Bytes w = rewrap(b, s, level);
@@ -409,19 +425,20 @@ static twin::Bytes c10_mutant(const C10Base & b, long j, std::string & kind) {
 
 static int run_c10(uint64_t seed, long from, long to, const char * listfile, long stride, bool count_only) {
     std::vector<std::string> files; { std::ifstream l(listfile); std::string s; while (std::getline(l, s)) if (!s.empty()) files.push_back(s); }
-    std::vector<C10Base> bases(files.size()); std::vector<long> start; long total = 0;
-    for (size_t i = 0; i < files.size(); i++) { bases[i].file = twin::load(files[i]); c10_prepare(bases[i]); start.push_back(total); total += bases[i].total(); }
-    long ncases = (total + stride - 1) / stride;
-    if (count_only) { printf("%ld %ld\n", ncases, total); return 0; }
+    std::vector<C10Base> bases(files.size()); std::vector<long> bstart, tstart; long btotal = 0, ttotal = 0;
+    for (size_t i = 0; i < files.size(); i++) { bases[i].file = twin::load(files[i]); c10_prepare(bases[i]); bstart.push_back(btotal); btotal += bases[i].bulk_total(); tstart.push_back(ttotal); ttotal += bases[i].targeted_total(); }
+    long nbulk = (btotal + stride - 1) / stride;
+    long ncases = nbulk + ttotal; long total = btotal + ttotal;
+    if (count_only) { printf("%ld %ld %ld\n", ncases, total, ttotal); return 0; }
     std::string path = tmp_path("c10");
     g_new_cap = 256u << 20;
     long sessions = 0, opened = 0, threw = 0, objects = 0; std::map<std::string, long> kinds; std::string sample;
     long phase = (long)(Rng::mix(seed, 0xC10) % (uint64_t)stride);
     for (long c = from; c < to && c < ncases; c++) {
         hc::begin_case(std::to_string(c));
-        long g = c * stride + phase; if (g >= total) g = total - 1;
-        size_t bi = 0; while (bi + 1 < bases.size() && start[bi + 1] <= g) bi++;
-        long j = g - start[bi];
+        size_t bi = 0; long j;
+        if (c < nbulk) { long g = c * stride + phase; if (g >= btotal) g = btotal - 1; while (bi + 1 < bases.size() && bstart[bi + 1] <= g) bi++; j = bases[bi].unify(g - bstart[bi], true); }
+        else { long g = c - nbulk; while (bi + 1 < bases.size() && tstart[bi + 1] <= g) bi++; j = bases[bi].unify(g - tstart[bi], false); }
         std::string kind; twin::Bytes mut = c10_mutant(bases[bi], j, kind);
         twin::save(path, mut);
         std::string ctx = kind + " #" + std::to_string(j) + " of " + files[bi].substr(files[bi].rfind('/') + 1) + " (" + std::to_string(mut.size()) + " bytes) case=" + std::to_string(c);
